@@ -13,7 +13,7 @@ import (
 // recWriter records the Write calls it receives and answers as configured.
 type recWriter struct {
 	calls [][]byte
-	mode  int // 0 ok, 1 fails, 2 writes short
+	mode  int // 0 ok, 1 fails, 2 writes short, 3 fails after taking part of the text, 4 claims more than it was given
 }
 
 var errWriter = errors.New("writer failed")
@@ -25,6 +25,10 @@ func (w *recWriter) Write(p []byte) (int, error) {
 		return 0, errWriter
 	case 2:
 		return len(p) / 2, nil
+	case 3:
+		return len(p)/2 + 1, errWriter
+	case 4:
+		return len(p) + 3, nil
 	}
 	return len(p), nil
 }
@@ -81,7 +85,7 @@ func judgeC16(rep *lib.Report, c *lib.Ctx, ln *printerLine, res *realResult, kas
 		return out, ok
 	}
 	// S/F pair: identical bytes, one Write, (n, err) from the writer
-	for mode := 0; mode < 3; mode++ {
+	for mode := 0; mode < 5; mode++ {
 		w := &recWriter{mode: mode}
 		var n int
 		var err error
@@ -109,6 +113,10 @@ func judgeC16(rep *lib.Report, c *lib.Ctx, ln *printerLine, res *realResult, kas
 			wantN, wantErr = 0, errWriter
 		} else if mode == 2 {
 			wantN = len(direct) / 2
+		} else if mode == 3 {
+			wantN, wantErr = len(direct)/2+1, errWriter
+		} else if mode == 4 {
+			wantN = len(direct) + 3
 		}
 		if n != wantN || err != wantErr {
 			rep.Violate("routes:fprint-result", fmt.Sprintf("%s: Fprint returned (%d,%v), the writer said (%d,%v)", desc, n, err, wantN, wantErr), kase)
